@@ -399,10 +399,16 @@ func c08Run(c *sim.Ctx) {
 
 	recover := func() {
 		// the process crashed: what was in flight is gone; restart after some downtime
-		w.epoch++
-		w.markCrash()
-		c.S.Sleep(time.Duration(1+c.S.Choose(simrt.StClock, 60)) * time.Second)
-		w.startManager()
+		// (a crash during the restart's own recovery work is one more crash)
+		for {
+			w.epoch++
+			w.markCrash()
+			c.S.Sleep(time.Duration(1+c.S.Choose(simrt.StClock, 60)) * time.Second)
+			w.startManager()
+			if !w.node.Dead() {
+				return
+			}
+		}
 	}
 
 	runOp := func(op sim.Op) *simrt.Task {
